@@ -64,6 +64,12 @@ func doCall(name, path, arg string) string {
 		// marker for the system-call trace: the call has returned, Close comes next
 		unix.FcntlInt(f.Fd(), unix.F_GETFD, 0)
 		f.Close()
+		if os.Getenv("LF_CLOSE2") != "" {
+			// Close may be called again: it must report an error and do nothing else
+			if f.Close() == nil {
+				return "secondcloseok"
+			}
+		}
 		return "ok"
 	}
 	switch name {
@@ -74,6 +80,9 @@ func doCall(name, path, arg string) string {
 		}
 		return "data:" + hexs(b)
 	case "write":
+		if strings.HasPrefix(arg, "rd:") {
+			return res(lockedfile.Write(path, contentReader(arg), 0o666))
+		}
 		return res(lockedfile.Write(path, bytes.NewReader(unhex(arg)), 0o666))
 	case "transform":
 		return res(lockedfile.Transform(path, func(old []byte) ([]byte, error) {
@@ -82,6 +91,9 @@ func doCall(name, path, arg string) string {
 			}
 			if strings.HasPrefix(arg, "alias:") {
 				return aliasTransform(arg, old), nil
+			}
+			if strings.HasPrefix(arg, "res:") {
+				return resTransform(arg, old), nil
 			}
 			return unhex(arg), nil
 		}))
@@ -150,6 +162,9 @@ func helperMain(args []string) {
 		fmt.Println("BEGIN")
 		out := doCall(args[1], args[2], args[3])
 		fmt.Println("RESULT " + out)
+	case "rel": // rel <name> <path> <arg>: one call, then report what it left behind (release.go)
+		relHelper(args[1], args[2], args[3])
+		return
 	case "stress": // stress <dir> <proc> <goroutines> <iters> <seed> <npaths>
 		stressWorker(args[1:])
 	case "hist": // hist <dir> <proc> <goroutines> <iters> <seed> <mode>
